@@ -4,6 +4,7 @@ go 1.22.0
 
 require (
 	golang.org/x/text v0.21.0
+	mellium.im/xmlstream v0.15.4
 	mellium.im/xmpp v0.0.0
 )
 
@@ -12,7 +13,6 @@ require (
 	golang.org/x/net v0.33.0 // indirect
 	mellium.im/reader v0.1.0 // indirect
 	mellium.im/sasl v0.3.2 // indirect
-	mellium.im/xmlstream v0.15.4 // indirect
 )
 
 replace mellium.im/xmpp => /repo
